@@ -165,7 +165,16 @@ class Interp:
                         return self.ev(c_.expr(lc_["ghost_init"][nm]), Frame(c_.module, locals=fr.locals, parent=outer, func="<spec>"))
             if fr is None or nm not in fr.locals:
                 raise Unsupported(f"final({nm!r}): no such local at return")
-            return fr.locals[nm]
+            fv_ = fr.locals[nm]
+            if type(fv_).__name__ == "VMaybeUnbound":
+                if getattr(fv_, "last", None) is None:
+                    raise Unsupported(f"final({nm!r}): bound only inside a loop body")
+                some = ops.int_cmp(">=", fv_.count, mkint(1))
+                if some.c is False or not self.path.known(some.term()) and some.c is None:
+                    raise Unsupported(f"final({nm!r}): the loop may not have run")
+                fv_ = fv_.last()
+                fr.locals[nm] = fv_
+            return fv_
         if name == "events":
             return self.new_list(list(self.path.ghost.get("events", {}).get(args[0].c, [])))
         raise Unsupported(f"spec builtin {name}")
@@ -461,6 +470,21 @@ class Interp:
             fn_._pyvc_locals = names
         return names
 
+    def resolve_maybe_unbound(self, fr, name, v, lineno=0):
+        """a loop variable read after its loop: the last element, or unbound when the loop body never ran"""
+        if getattr(v, "last", None) is None:
+            return v
+        some = ops.int_cmp(">=", v.count, mkint(1))
+        if some.c is True or (some.c is None and self.path.branch(some.term(), "loop_ran")):
+            val = v.last()
+            for f_ in (fr,):
+                if f_.locals.get(name) is v:
+                    f_.locals[name] = val
+            return val
+        if getattr(v, "prev", None) is not None:
+            return v.prev
+        self.raise_py("builtins.UnboundLocalError", f"cannot access local variable '{name}' where it is not associated with a value")
+
     def ev_Name(self, node, fr):
         fn_ = fr.fnode
         if fn_ is not None and node.id not in fr.locals and node.id in self.function_locals(fn_):
@@ -471,6 +495,9 @@ class Interp:
         except KeyError:
             raise Unsupported(f"name {node.id} (line {node.lineno})")
         if type(v).__name__ == "VMaybeUnbound":
+            v = self.resolve_maybe_unbound(fr, node.id, v, node.lineno)
+            if type(v).__name__ != "VMaybeUnbound":
+                return v
             i_ = fr.locals.get("_i") if v.is_for else None
             if i_ is not None and (i_.c == 0 or (i_.c is None and self.path.branch(i_.as_int() == 0, "first_iteration"))):
                 self.raise_py("builtins.UnboundLocalError", f"cannot access local variable '{node.id}' where it is not associated with a value")
